@@ -633,20 +633,46 @@ func (c *Ctx) flagSetBranch(arm selArm) *ssa.BasicBlock {
 		if !ok {
 			continue
 		}
-		if bo, ok := iff.Cond.(*ssa.BinOp); ok && (bo.Op == token.NEQ || bo.Op == token.EQL) {
+		// the tested value: `flag != nil` itself, or a predicate helper returning it (connFailed())
+		cond, flip := iff.Cond, false
+		if u, ok := cond.(*ssa.UnOp); ok && u.Op == token.NOT {
+			cond, flip = u.X, true
+		}
+		setWhenTrue, decided := false, false
+		consistent := true
+		for _, o := range c.origins(cond) {
+			bo, ok := o.Root.(*ssa.BinOp)
+			if !ok || len(o.Fields) != 0 || (bo.Op != token.NEQ && bo.Op != token.EQL) {
+				consistent = false
+				break
+			}
 			var other ssa.Value
 			if isNilConst(bo.Y) {
 				other = bo.X
 			} else if isNilConst(bo.X) {
 				other = bo.Y
 			}
-			if other != nil && c.fieldVal(other, c.R.FFlag) {
-				if bo.Op == token.NEQ {
-					res = b.Succs[0]
-				} else {
-					res = b.Succs[1]
-				}
+			if other == nil || !c.fieldVal(other, c.R.FFlag) {
+				consistent = false
+				break
 			}
+			pol := bo.Op == token.NEQ
+			if decided && pol != setWhenTrue {
+				consistent = false
+				break
+			}
+			setWhenTrue, decided = pol, true
+		}
+		if !consistent || !decided {
+			continue
+		}
+		if flip {
+			setWhenTrue = !setWhenTrue
+		}
+		if setWhenTrue {
+			res = b.Succs[0]
+		} else {
+			res = b.Succs[1]
 		}
 	}
 	return res
